@@ -29,9 +29,10 @@ const (
 	oErr
 	oPanicPlan
 	oPanicNext
+	oPanicPlanCall // Stage.Plan() itself panics (on the goroutine that schedules the stage), not an operator of the plan
 )
 
-var outName = []string{"ok", "err", "panicPlan", "panicNext"}
+var outName = []string{"ok", "err", "panicPlan", "panicNext", "panicPlanCall"}
 
 // node of a scenario tree
 type node struct {
@@ -73,7 +74,7 @@ func genTrees(maxNodes, depth int) []*node {
 		return nil
 	}
 	for _, async := range []bool{false, true} {
-		for oc := 0; oc < 4; oc++ {
+		for oc := 0; oc < 5; oc++ {
 			out = append(out, &node{Async: async, Outcome: oc})
 			if oc != oOK && oc != oPanicNext {
 				continue
@@ -164,6 +165,12 @@ func build(n *node, o *obs, pool concurrent.Pool) stage.Stage {
 		o.started[n.id] = true
 		o.startedCnt++
 		vsched.Logf("start %d", n.id)
+		if n.Outcome == oPanicPlanCall {
+			o.failed = true
+			o.panicked = true
+			vsched.Logf("stage %d panics in its Plan call", n.id)
+			panic("plan call panic")
+		}
 		return stage.NewPlanNode(&op{n: n, o: o})
 	}
 	s.NextFn = func() []stage.Stage {
@@ -281,7 +288,7 @@ func main() {
 		maxNodes, unbAsync, pb = 5, 3, 3
 	}
 	trees := genTrees(maxNodes, 3)
-	rep.Rule = fmt.Sprintf("all stage trees with <=%d stages, fan-out<=2, depth<=3, x {sync,async} x {ok,err,panicPlan,panicNext} per stage (children only under ok stages); for each, every schedule of the async stages within the preemption bound. non-trivial = tree with >=1 async stage or >=2 stages; distinct = distinct (tree, schedule)", maxNodes)
+	rep.Rule = fmt.Sprintf("all stage trees with <=%d stages, fan-out<=2, depth<=3, x {sync,async} x {ok,err,panicPlan (an operator of the plan panics),panicNext,panicPlanCall (Stage.Plan itself panics)} per stage (children only under ok stages); for each, every schedule of the async stages within the preemption bound. non-trivial = tree with >=1 async stage or >=2 stages; distinct = distinct (tree, schedule)", maxNodes)
 	rep.Bounds["max_stages"] = maxNodes
 	rep.Bounds["preemption_bound"] = fmt.Sprintf("unbounded for trees with <=%d async stages, %d otherwise", unbAsync, pb)
 	var nontrivialTrees int64
